@@ -72,6 +72,13 @@ type Case struct {
 	Other   *vkit.ClientSpec `json:"other,omitempty"` // a second registered client the earlier issuances may use
 	// Conc: the concurrent sub-check (TestConcurrent*): several workers drive their own flows on ONE provider at the same time.
 	Conc *Conc `json:"conc,omitempty"`
+	// OwnVerif: what the application configured for the provider's OWN verifiers (Provider.AccessTokenVerifier behind userinfo /
+	// introspection / token exchange, Provider.IDTokenHintVerifier behind end_session): "" = both are told the algorithm of the first
+	// signing key (vkit.Build), "none" = no verifier options at all (the library's default list RS256, ES256, PS256 applies),
+	// "all" = both are told all 8 algorithms of the generator.
+	OwnVerif string `json:"own_verif,omitempty"`
+	// IL: the interleaving sub-check (TestInterleave): issuances and key rotations under a schedule the harness owns.
+	IL *Interleave `json:"il,omitempty"`
 }
 
 // Earlier is one earlier issuance.
@@ -172,6 +179,19 @@ func genCase(t *rapid.T) Case {
 		}
 		if len(others) > 0 {
 			c.Rotate = &vkit.SignKeySpec{KeyName: rapid.SampledFrom(others).Draw(t, "rotkey"), Alg: c.Sign.Alg, KID: "rotated-" + c.Sign.KID}
+		}
+		if rapid.Bool().Draw(t, "rot-otheralg") {
+			// ... or to a key of any algorithm (another family included)
+			nalg := rapid.SampledFrom(algKinds).Draw(t, "rotalg")
+			var names []string
+			for _, n := range keysFor(nalg) {
+				if n != c.Sign.KeyName {
+					names = append(names, n)
+				}
+			}
+			if len(names) > 0 {
+				c.Rotate = &vkit.SignKeySpec{KeyName: rapid.SampledFrom(names).Draw(t, "rotkey2"), Alg: nalg, KID: "rotated-" + c.Sign.KID}
+			}
 		}
 	}
 	// roll-over performed by the storage in the middle of the flow, to any algorithm (the hash of at_hash / c_hash changes with it)
@@ -319,6 +339,7 @@ func genCase(t *rapid.T) Case {
 	if rapid.IntRange(0, 3).Draw(t, "earlier") == 3 {
 		genEarlier(t, &c)
 	}
+	c.OwnVerif = rapid.SampledFrom(ownVerifModes).Draw(t, "ownverif")
 	return c
 }
 
@@ -455,6 +476,10 @@ type env struct {
 	state  string
 	bad    string // != "": the storage supplies an unencodable custom claim during the current issuance
 	note   string // appended to the step name of issuances (position in a sequence / worker)
+	// interleaving sub-check: the rotations are the harness's (timeline), not this driver's
+	tl      *timeline
+	epoch0  int  // number of rotations completed when the issuing request in flight was started
+	skipped bool // the flow was not driven to its end for a reason that is the configuration's (labelled grey)
 }
 
 func (e *env) issuerOf(a *vkit.Agent) string {
@@ -522,6 +547,11 @@ func (e *env) authorize(step string, mainStep bool, a0, a1 *vkit.Agent, cl *vkit
 
 // rotate switches the provider to the new signing key; the old public key stays in the published set.
 func (e *env) rotate(mainStep bool) {
+	if e.tl != nil {
+		// called right before every request that issues tokens: the keys in force for it start here
+		e.epoch0 = e.tl.epoch()
+		return
+	}
 	if mainStep && e.c.Roll != nil && !e.armed {
 		// from here on the storage counts the reads of its signing key and switches by itself
 		e.armed = true
@@ -568,6 +598,9 @@ func (e *env) applyUse() {
 // current key; when the storage rolled over while this response was produced, the key before or the key after the switch
 // (a roll-over at the very first read leaves only the new one).
 func (e *env) signingKeysOf() []vkit.SignKeySpec {
+	if e.tl != nil {
+		return e.tl.since(e.epoch0)
+	}
 	before, after := e.sign, e.st.SignKey
 	e.sign = after
 	if before == after {
@@ -645,6 +678,9 @@ func buildProvider(c Case, clients []*vkit.ClientSpec, hook *claimHook) (*vkit.S
 	spec.Caps = vkit.Caps{CC: true, TE: true, Device: true, Extras: c.Extras}
 	spec.WrapStorage = hook.wrapStorage
 	sut, err := vkit.Build(spec, st)
+	if err == nil && c.OwnVerif != "" {
+		err = rebuildOwnVerif(sut, spec, st, c.OwnVerif)
+	}
 	return st, sut, err
 }
 
@@ -826,7 +862,7 @@ func (e *env) runFlow() []*issuance {
 			mainSeen = true
 		}
 	}
-	if !mainSeen && len(e.res.Viol) == 0 && !e.slow {
+	if !mainSeen && len(e.res.Viol) == 0 && !e.slow && !e.skipped {
 		e.res.Fail("C06:flow-incomplete:"+c.Flow, "flow %s produced no token response and no diagnosis", c.Flow)
 	}
 	return all
@@ -835,6 +871,9 @@ func (e *env) runFlow() []*issuance {
 func run(c Case) (res *vkit.Result) {
 	if c.Conc != nil {
 		return runConc(c)
+	}
+	if c.IL != nil {
+		return runIL(c)
 	}
 	res = &vkit.Result{}
 	defer func() {
@@ -914,6 +953,12 @@ func run(c Case) (res *vkit.Result) {
 	if c.Issuer.PreHost != "" && c.Issuer.Mode != "static" {
 		res.Label("issuer:split-host")
 	}
+	if c.OwnVerif != "" {
+		res.Label("own-verifiers:config:" + c.OwnVerif)
+	}
+	if c.Rotate != nil && c.Rotate.Alg != c.Sign.Alg {
+		res.Label("key-rotated:other-algorithm")
+	}
 	if e.slow {
 		res.Grey = true
 		res.Label("grey:slow-clock")
@@ -951,6 +996,12 @@ func rollKey(c Case) string {
 	}
 	if c.UseMode != "" {
 		out += "|use=" + c.UseMode
+	}
+	if c.OwnVerif != "" {
+		out += "|own=" + c.OwnVerif
+	}
+	if c.Rotate != nil && c.Rotate.Alg != c.Sign.Alg {
+		out += "|rot>" + c.Rotate.Alg
 	}
 	for i, s := range c.Earlier {
 		if i == 0 {
@@ -1134,6 +1185,10 @@ func (e *env) exchangeFlow() []*issuance {
 	if len(c.TE.Scopes) > 0 {
 		form.Set("scope", strings.Join(c.TE.Scopes, " "))
 	}
+	// the provider reads the presented tokens with its own verifiers: only tokens those are expected to accept are presented
+	if (c.TE.SubjectKind != "refresh" && !e.ownReads(form.Get("subject_token"))) || (actor != "" && !e.ownReads(form.Get("actor_token"))) {
+		return all
+	}
 	e.rotate(true)
 	t0 := time.Now()
 	r := e.main.Token(form, e.cred(e.main, e.cl))
@@ -1169,9 +1224,10 @@ func (e *env) exchangeFlow() []*issuance {
 var prop = vkit.Prop[Case]{
 	ID: "C06",
 	Rule: "cases = flow (code, implicit id_token, implicit id_token token, refresh x 1-2 rounds x narrowing, device, client_credentials, jwt-bearer, token-exchange x subject token kind x requested type x audience x actor x impersonation) " +
-		"x access token type (opaque/JWT) x 8 signing key kinds (+0-2 rotated-out published keys; optional rotation to another key of the same algorithm right before the response under test, or a roll-over to a key of any of the 8 kinds that the storage performs by itself after 0-6 further reads of its signing key, i.e. before / between / after the key reads of one response or in a later response of the flow: every token must be self-consistent (header, signature, at_hash / c_hash hash function) under ONE of the keys in force during that response and verify over /keys) x `use` member of the published keys (all 'sig' / absent on all / absent on the signing keys / absent on the rotated-out keys) x client clock skew {0,1,30,300 s} x id-token lifetime x access-token TTL x scope set (with/without openid, custom scope) x userinfo-assertion flag " +
+		"x access token type (opaque/JWT) x 8 signing key kinds (+0-2 rotated-out published keys; optional rotation to another key of the same algorithm or to a key of any other of the 8 kinds (another family) right before the response under test, or a roll-over to a key of any of the 8 kinds that the storage performs by itself after 0-6 further reads of its signing key, i.e. before / between / after the key reads of one response or in a later response of the flow: every token must be self-consistent (header, signature, at_hash / c_hash hash function) under ONE of the keys in force during that response and verify over /keys) x `use` member of the published keys (all 'sig' / absent on all / absent on the signing keys / absent on the rotated-out keys) x client clock skew {0,1,30,300 s} x id-token lifetime x access-token TTL x scope set (with/without openid, custom scope) x userinfo-assertion flag " +
 		"x client scope restrictions x extra audience x issuer strategy (static/host/forwarded, split hosts, Forwarded header forms) x provider crypto key x router x client auth method; every token of every response of the flow " +
-		"(preparatory ones included) is verified with rp.VerifyTokens / op.VerifyAccessToken over the provider's /keys endpoint and /userinfo, and re-derived independently (crypto/* signature, at_hash, c_hash, AES-CFB unsealing, claims vs. the storage's ground truth, time brackets with a 2 s guard). " +
+		"(preparatory ones included) is verified with rp.VerifyTokens / op.VerifyAccessToken over the provider's /keys endpoint, put before the provider's OWN verifiers (op.VerifyAccessToken with Provider.AccessTokenVerifier, op.VerifyIDTokenHint with Provider.IDTokenHintVerifier, /userinfo, /introspect as the client the token was issued to) " +
+		"x what the application configured for those verifiers (the first signing algorithm / nothing: library default RS256, ES256, PS256 / all 8; a token whose algorithm the configuration does not cover is grey there, and a token exchange presenting such a token is not driven), at every position of the sequence, i.e. before and after the signing key was replaced by a key of another algorithm, and re-derived independently (crypto/* signature, at_hash, c_hash, AES-CFB unsealing, claims vs. the storage's ground truth, time brackets with a 2 s guard). " +
 		"In a quarter of the cases 1-3 EARLIER issuances (code / implicit / device / client_credentials, for users, scope sets, nonces and a second client of their own) run on the same provider and storage before the flow under test and are judged alike; " +
 		"during about half of them the storage supplies a custom claim of the custom scope that encoding/json cannot encode (NaN, +Inf, chan, func, map[any]any, failing Marshaler, complex; inside the custom claim's object or as a claim of its own; " +
 		"in the private claims of JWT access tokens and in the userinfo claims of id tokens): such an issuance may be refused (nothing asserted about it), every LATER response of the case must still carry only what belongs to its own request. " +
